@@ -123,6 +123,9 @@ def _continue_case(case):
     oe = sa.evaluate_operation
 
     def ev_wrap():
+        if len(results) > 300:
+            # (a continuation without a point limit can only end by its tolerance: a driver that ignores it would never return)
+            raise core.HarnessError("horizon: more than 300 evaluations in a two-phase run")
         r = oe()
         results.append(np.array(op.get_result(), dtype=float).copy())
         return r
